@@ -1,6 +1,6 @@
 (* Codec: the obligations that are re-evaluated on the freshly translated programs. *)
 From NV Require Import Lib.Base Codec.Lang Codec.Def Codec.Sem Codec.Total Codec.LoopLemmas Codec.Dispatch Codec.DispatchProofs
-  Codec.WF Codec.RoundTrip Codec.SpecTable Codec.SpecProofs Codec.SpecDecode Codec.GenDefs Spec.TS24501Tables
+  Codec.WF Codec.Cost Codec.RoundTrip Codec.SpecTable Codec.SpecProofs Codec.SpecDecode Codec.GenDefs Spec.TS24501Tables
   Gen.GenMsgs Gen.GenTypes Gen.GenDispatch.
 From Coq Require Import String.
 Open Scope N_scope.
@@ -100,3 +100,21 @@ Qed.
 (* the specification view of the current source equals the pinned TS 24.501 element tables *)
 Lemma tables_eq_pinned : map (fun p => (fst p, abstract (snd p))) defs = ts24501_tables.
 Proof. vm_compute. reflexivity. Qed.
+
+(* ---------- C01: work and allocation bounds over the cost model (Codec/Cost.v) ---------- *)
+Lemma all_cost : forallb (fun p => cost_defb (snd p)) defs = true.
+Proof. vm_compute. reflexivity. Qed.
+
+(* the largest element struct (capacity + 32) of the current source *)
+Definition worst_struct : N := Eval vm_compute in worst_struct_of defs.
+
+Lemma message_decode_cost n d bs : find_def n = Some d -> bytes_ok bs ->
+  fst (decode_cost d bs) <= 4 * N.of_nat (List.length d) + 8 * N.of_nat (List.length bs) + 1 /\
+  snd (decode_cost d bs) <= (worst_struct + 3) * N.of_nat (List.length bs) + 2 * BIG + 2 * worst_struct.
+Proof.
+  unfold Dispatch.find_def. cbn [t_defs T]. intros H Hb. destruct (find _ defs) as [p|] eqn:E; inversion H; subst.
+  apply find_some in E as [Hin _].
+  pose proof all_cost as W. rewrite forallb_forall in W. specialize (W p Hin). cbv beta in W.
+  pose proof (worst_struct_le defs p Hin) as Hws. change (worst_struct_of defs) with worst_struct in Hws.
+  destruct (decode_cost_bound (snd p) bs W Hb) as (A & B). split; [exact A|]. nia.
+Qed.
